@@ -10,12 +10,12 @@ META = dict(
     files=FILES,
     technique="bounded model checking in z3 of a guarded-command transition system generated from the AST of _rwlock.py (every acquire / release / counter read / counter write / if is one step; state = bit-vector program counters and counters, Boolean locks) with the schedule as solver variables; horizon = total program length, complete for these loop-free programs; the lazy-table / scale() publication discipline as a line-level model generated from the AST with a small heap",
     level_text="Solver verdict over every schedule of up to three threads (1R+1W, 2R, 2W, 1R+2W, 2R+1W; thorough adds 3R, 3W) each doing acquire -> critical section -> release once: no state has a writer in its critical section together with any other holder, no reachable state is a deadlock, no release of a free lock, and (sat witness) two readers do hold together. For _maybe_precompute / scale: under every interleaving of two constructors and an observer the observer sees the table empty or complete and the coordinates either old or fully scaled.",
-    level_note="2R+2W (the property's upper bound) is outside the claim: its first query did not finish in 40 minutes in the design probe; the check covers up to three threads. Granularity: one step per source-level lock operation / counter read / counter write (the += is split), as the property states (source line), not CPython bytecode. The table/scale part is a model of the publication discipline (which statements touch shared attributes, aliasing of the list object), the arithmetic is C17. Counterexample schedules are replayed on the real class with threading.Lock replaced by a gate that follows the schedule.",
+    level_note="2R+2W (the property's upper bound) is outside the claim: its first query did not finish in 40 minutes in the design probe; the check covers up to three threads. Granularity: one step per source-level lock operation and `if`; the counter += is split into read and write for two-thread configurations (so a lost update would be seen) and is one step for three-thread configurations (the split did not finish in 18 min); not CPython bytecode. The table/scale part is a model of the publication discipline (which statements touch shared attributes, aliasing of the list object), the arithmetic is C17. Counterexample schedules are replayed on the real class with threading.Lock replaced by a gate that follows the schedule.",
     explanation="Bounded model checking (z3, bit-vector state) of a transition system generated from the source on every run; unsupported syntax makes the check inconclusive.",
     functions=["RWLock.reader_acquire", "RWLock.reader_release", "RWLock.writer_acquire", "RWLock.writer_release", "_LightSwitch.acquire", "_LightSwitch.release", "PointJacobi._maybe_precompute (publication model)", "PointJacobi.scale (publication model)"],
     stubs=["threading.Lock -> Boolean 'held' with blocking acquire"],
     assumptions=["lock operations and single attribute reads/writes are atomic (GIL); line granularity"],
-    bounds=dict(quick="1R+1W, 2R, 2W, 1R+2W, 2R+1W (mutual exclusion, deadlock, bad release); horizon = sum of program lengths", thorough="adds 3R, 3W, 3R-witness"),
+    bounds=dict(quick="1R+1W, 2R, 2W: mutual exclusion, deadlock, bad release, counter range with the counter += split into read and write; 1R+2W, 2R+1W: mutual exclusion and counter range with += as one step (deadlock / bad release of the three-thread configurations take 6-20 min each and run in the thorough tier); horizon = sum of program lengths", thorough="adds 3R, 3W, 3R-witness"),
     outside=["2R+2W and larger", "bytecode-level atomicity", "GC / __setstate__"],
 )
 
@@ -108,7 +108,22 @@ def translate_rwlock():
     return progs
 
 
+def merge_updates(prog):
+    """counter read+write as one step (used for 3-thread configurations, see level_note)"""
+    out, i = [], 0
+    while i < len(prog):
+        if prog[i][0] == "rd" and i + 1 < len(prog) and prog[i + 1][0] == "wr":
+            out.append(("upd", prog[i][1], prog[i][2]))
+            i += 2
+        else:
+            out.append(prog[i])
+            i += 1
+    return out
+
+
 def bmc(progs, threads, query, timeout_s=1500):
+    if len(threads) >= 3:
+        progs = {k: merge_updates(v) for k, v in progs.items()}
     """threads: list of 'reader'/'writer'.  query: 'mutex' | 'deadlock' | 'badrelease' | 'two-readers'.
     returns (result, schedule or None, stats)"""
     import time
@@ -118,7 +133,7 @@ def bmc(progs, threads, query, timeout_s=1500):
     n = len(P)
     H = sum(len(p) for p in P)
     locks = sorted({i[1] for p in P for i in p if i[0] in ("acq", "rel")} | {i[3] for p in P for i in p if i[0] in ("cacq", "crel")})
-    ctrs = sorted({i[1] for p in P for i in p if i[0] in ("rd", "wr", "cacq", "crel")})
+    ctrs = sorted({i[1] for p in P for i in p if i[0] in ("rd", "wr", "upd", "cacq", "crel")})
     CW, PW, TW = 3, 6, max(1, (n - 1).bit_length())
 
     def mkstate(k):
@@ -133,7 +148,7 @@ def bmc(progs, threads, query, timeout_s=1500):
     S = [mkstate(k) for k in range(H + 1)]
     sched = [z3.BitVec("s_%d" % k, TW + 1) for k in range(H)]
     stut = [z3.Bool("stutter_%d" % k) for k in range(H)]
-    s = z3.Solver()
+    s = z3.Then("simplify", "propagate-values", "solve-eqs", "bit-blast", "sat").solver()
     s.set("timeout", timeout_s * 1000)
     s0 = S[0]
     for i in range(n):
@@ -161,47 +176,59 @@ def bmc(progs, threads, query, timeout_s=1500):
     badrel_flags = []
     for k in range(H):
         a, b = S[k], S[k + 1]
-        trans = []
+        # functional encoding: the scheduled thread executes the instruction its pc points at
+        at = [[z3.And(sched[k] == i, a["pc"][i] == j) for j in range(len(P[i]))] for i in range(n)]
+        en = []
         for i in range(n):
             for j, ins in enumerate(P[i]):
-                g = [sched[k] == i, a["pc"][i] == j, enabled(a, i, j, ins)]
-                eff = {("pc", i): z3.BitVecVal(j + 1, PW)}
-                if ins[0] == "acq":
-                    eff[("lock", ins[1])] = z3.BoolVal(True)
-                elif ins[0] == "rel":
-                    eff[("lock", ins[1])] = z3.BoolVal(False)
-                elif ins[0] == "rd":
-                    eff[("tmp", i)] = a["ctr"][ins[1]] + ins[2]
-                elif ins[0] == "wr":
-                    eff[("ctr", ins[1])] = a["tmp"][i]
-                elif ins[0] == "cacq":
-                    eff[("lock", ins[3])] = z3.If(a["ctr"][ins[1]] == ins[2], z3.BoolVal(True), a["lock"][ins[3]])
-                elif ins[0] == "crel":
-                    eff[("lock", ins[3])] = z3.If(a["ctr"][ins[1]] == ins[2], z3.BoolVal(False), a["lock"][ins[3]])
+                en.append(z3.And(at[i][j], enabled(a, i, j, ins)))
+        act = z3.Not(stut[k])
+        s.add(z3.Implies(act, z3.Or(en)))
+        if k > 0:
+            s.add(z3.Implies(stut[k - 1], stut[k]))  # stuttering only at the end of the run
+        for i in range(n):
+            npc, ntmp, ncrit = a["pc"][i], a["tmp"][i], a["crit"][i]
+            for j, ins in enumerate(P[i]):
+                c = z3.And(act, at[i][j])
+                npc = z3.If(c, z3.BitVecVal(j + 1, PW), npc)
+                if ins[0] == "rd":
+                    ntmp = z3.If(c, a["ctr"][ins[1]] + ins[2], ntmp)
                 elif ins[0] == "enter":
-                    eff[("crit", i)] = z3.BoolVal(True)
+                    ncrit = z3.If(c, z3.BoolVal(True), ncrit)
                 elif ins[0] == "exit":
-                    eff[("crit", i)] = z3.BoolVal(False)
-                upd = []
-                for t in range(n):
-                    upd.append(b["pc"][t] == eff.get(("pc", t), a["pc"][t]))
-                    upd.append(b["tmp"][t] == eff.get(("tmp", t), a["tmp"][t]))
-                    upd.append(b["crit"][t] == eff.get(("crit", t), a["crit"][t]))
-                for l in locks:
-                    upd.append(b["lock"][l] == eff.get(("lock", l), a["lock"][l]))
-                for c in ctrs:
-                    upd.append(b["ctr"][c] == eff.get(("ctr", c), a["ctr"][c]))
-                trans.append(z3.And(g + upd))
-        same = [b["pc"][t] == a["pc"][t] for t in range(n)] + [b["tmp"][t] == a["tmp"][t] for t in range(n)] + [b["crit"][t] == a["crit"][t] for t in range(n)] + [b["lock"][l] == a["lock"][l] for l in locks] + [b["ctr"][c] == a["ctr"][c] for c in ctrs]
-        s.add(z3.Or(z3.And([z3.Not(stut[k])] + [z3.Or(trans)]), z3.And([stut[k]] + same)))
-        # release of a free lock at this step
+                    ncrit = z3.If(c, z3.BoolVal(False), ncrit)
+            s.add(b["pc"][i] == npc, b["tmp"][i] == ntmp, b["crit"][i] == ncrit)
+        for l in locks:
+            nl = a["lock"][l]
+            for i in range(n):
+                for j, ins in enumerate(P[i]):
+                    c = z3.And(act, at[i][j])
+                    if ins[0] == "acq" and ins[1] == l:
+                        nl = z3.If(c, z3.BoolVal(True), nl)
+                    elif ins[0] == "rel" and ins[1] == l:
+                        nl = z3.If(c, z3.BoolVal(False), nl)
+                    elif ins[0] == "cacq" and ins[3] == l:
+                        nl = z3.If(z3.And(c, a["ctr"][ins[1]] == ins[2]), z3.BoolVal(True), nl)
+                    elif ins[0] == "crel" and ins[3] == l:
+                        nl = z3.If(z3.And(c, a["ctr"][ins[1]] == ins[2]), z3.BoolVal(False), nl)
+            s.add(b["lock"][l] == nl)
+        for cname_ in ctrs:
+            nc = a["ctr"][cname_]
+            for i in range(n):
+                for j, ins in enumerate(P[i]):
+                    if ins[0] == "wr" and ins[1] == cname_:
+                        nc = z3.If(z3.And(act, at[i][j]), a["tmp"][i], nc)
+                    elif ins[0] == "upd" and ins[1] == cname_:
+                        nc = z3.If(z3.And(act, at[i][j]), a["ctr"][cname_] + ins[2], nc)
+            s.add(b["ctr"][cname_] == nc)
+        s.add(z3.ULT(sched[k], n))
         br = []
         for i in range(n):
             for j, ins in enumerate(P[i]):
                 if ins[0] == "rel":
-                    br.append(z3.And(z3.Not(stut[k]), sched[k] == i, a["pc"][i] == j, z3.Not(a["lock"][ins[1]])))
+                    br.append(z3.And(act, at[i][j], z3.Not(a["lock"][ins[1]])))
                 elif ins[0] == "crel":
-                    br.append(z3.And(z3.Not(stut[k]), sched[k] == i, a["pc"][i] == j, a["ctr"][ins[1]] == ins[2], z3.Not(a["lock"][ins[3]])))
+                    br.append(z3.And(act, at[i][j], a["ctr"][ins[1]] == ins[2], z3.Not(a["lock"][ins[3]])))
         badrel_flags.append(z3.Or(br) if br else z3.BoolVal(False))
 
     bad = []
@@ -239,7 +266,11 @@ def bmc(progs, threads, query, timeout_s=1500):
             if not z3.is_true(m.eval(stut[k], True)):
                 i = m.eval(sched[k], True).as_long()
                 pcv = m.eval(S[k]["pc"][i], True).as_long()
-                schedule.append((i, pcv, list(P[i][pcv])))
+                ins = P[i][pcv]
+                taken = True
+                if ins[0] in ("cacq", "crel"):
+                    taken = z3.is_true(m.eval(S[k]["ctr"][ins[1]] == ins[2], True))
+                schedule.append((i, pcv, list(ins), taken))
     nvars = (H + 1) * (n * 3 + len(locks) + len(ctrs))
     return str(r), schedule, dict(solver_s=round(dt, 2), horizon=H, state_vars=nvars, transitions=H * sum(len(p) for p in P))
 
@@ -258,6 +289,8 @@ def jobs(tier, seed):
         for q in ("mutex", "deadlock", "badrelease", "counter-overflow"):
             if q == "mutex" and "writer" not in c:
                 continue
+            if tier == "quick" and len(c) >= 3 and q in ("deadlock", "badrelease"):
+                continue  # 6-20 min each: thorough tier
             J.append(dict(name="rwlock:%s:%s" % (cname(c), q), kind="rwlock", threads=c, query=q, timeout=3400, cost=10 ** len(c)))
     J.append(dict(name="rwlock:2R:two-readers-witness", kind="rwlock", threads=["reader", "reader"], query="two-readers", expect="violated", timeout=600))
     J.append(dict(name="rwlock:translator-selftest", kind="selftest", timeout=300))
@@ -543,7 +576,7 @@ def replay(job):
     w = job.get("witness") or {}
     threads_, schedule = w.get("threads", job["threads"]), w.get("schedule") or []
     # projected order of gate events per step: (thread, kind)
-    order = [(i, ins[0]) for i, pc, ins in schedule if ins[0] in ("acq", "rel", "cacq", "crel", "enter", "exit")]
+    order = [(e[0], e[2][0]) for e in schedule if e[2][0] in ("acq", "rel", "enter", "exit") or (e[2][0] in ("cacq", "crel") and (len(e) < 4 or e[3]))]
     cv = threading.Condition()
     pos = [0]
     state = dict(crit=set(), bad=None, badrel=None)
@@ -560,9 +593,11 @@ def replay(job):
                 pos[0] += 1
             cv.notify_all()
 
+    RealLock = _rwlock.threading.Lock
+
     class GateLock:
         def __init__(self):
-            self._l = threading.Lock()
+            self._l = RealLock()
 
         def acquire(self):
             gate("acq")
